@@ -23,6 +23,7 @@ spec fn decPrefix(t string, n int) int = decPrefix3(t, n)
 // the closed form for up to three digits
 lemma decValSmall(t string, n int)
   requires 0 <= n && n <= 3
+  reveal decVal
   ensures decVal(t, n) == decPrefix3(t, n)
 
 // octetLabel: a decimal number in [0, 255] without leading zeros.
@@ -31,6 +32,45 @@ spec fn octetLabel(t string) bool =
   (forall i in 0..len(t): isDigit(t[i])) &&
   (len(t) > 1 ==> t[0] != '0') &&
   decPrefix(t, len(t)) <= 255
+
+// one unfolding of the recursive decimal value
+lemma decValStep(t string, n int)
+  requires 1 <= n
+  reveal decVal
+  ensures decVal(t, n) == decVal(t, n - 1) * 10 + (t[n - 1] - '0')
+
+lemma decValZero(t string)
+  reveal decVal
+  ensures decVal(t, 0) == 0
+
+lemma decValNonNeg(t string, n int)
+  requires 0 <= n && n <= len(t)
+  induction on n
+  apply decValZero(t)
+  apply decValStep(t, n) when n >= 1
+  ensures (forall i in 0..n: isDigit(t[i])) ==> 0 <= decVal(t, n)
+
+// a longer all-digit prefix has a value at least as large
+lemma decValMono(t string, k int, n int)
+  requires 0 <= k && k <= n && n <= len(t)
+  induction on n
+  apply decValZero(t)
+  apply decValStep(t, n) when n >= 1
+  apply decValNonNeg(t, n - 1) when n >= 1
+  apply decValNonNeg(t, n)
+  ensures (forall i in 0..n: isDigit(t[i])) ==> 0 <= decVal(t, k) && decVal(t, k) <= decVal(t, n)
+
+// isUint16: decimal digits only (leading zeros allowed), value at most 65535
+func isUint16
+  ensures grammar: ok <==> ((forall i in 0..len(s): isDigit(s[i])) && decVal(s, len(s)) <= 65535)
+  apply decValZero(s)
+  apply_exit decValStep(s, $pos) when $pos >= 1
+  apply_exit decValMono(s, $pos, len(s)) when 0 <= $pos && $pos <= len(s)
+  loop 0
+    invariant 0 <= $pos && $pos <= len(s)
+    invariant forall k in 0..$pos: isDigit(s[k])
+    invariant n == decVal(s, $pos) && n <= 65535
+    apply decValStep(s, $pos) when $pos >= 1
 
 func fromHexByte
   ensures safe_range: n == 255 || n < 16
@@ -235,29 +275,60 @@ lemma nextDotNone(t string, p int)
 spec fn hostFrom(t string, p int) bool =
   (p < 0 || p > len(t)) ? false :
   nextDot(t, p) < 0 ? tldOK(t[p:]) : (hostLabelOK(t[p:nextDot(t, p)]) && hostFrom(t, nextDot(t, p) + 1))
+  hidden
 // one unfolding of hostFrom at a position whose next dot is known
+lemma hostFromEnd(t string, p int)
+  requires 0 <= p && p <= len(t) && nextDot(t, p) < 0
+  reveal hostFrom
+  ensures hostFrom(t, p) <==> tldOK(t[p:])
+
 lemma hostFromStep(t string, p int, q int)
   requires 0 <= p && p <= q && q < len(t) && nextDot(t, p) == q
+  reveal hostFrom
   ensures hostFrom(t, p) <==> (hostLabelOK(t[p:q]) && hostFrom(t, q + 1))
+
+lemma domFromEnd(t string, p int)
+  requires 0 <= p && p <= len(t) && nextDot(t, p) < 0
+  reveal domFrom
+  ensures domFrom(t, p) <==> tldOK(t[p:])
+
+lemma domFromStep(t string, p int, q int)
+  requires 0 <= p && p <= q && q < len(t) && nextDot(t, p) == q
+  reveal domFrom
+  ensures domFrom(t, p) <==> (domLabelOK(t[p:q]) && domFrom(t, q + 1))
+
+lemma srvFromEnd(t string, p int)
+  requires 0 <= p && p <= len(t) && nextDot(t, p) < 0
+  reveal srvFrom
+  ensures srvFrom(t, p) <==> tldOK(t[p:])
+
+lemma srvFromStep(t string, p int, q int)
+  requires 0 <= p && p <= q && q < len(t) && nextDot(t, p) == q
+  reveal srvFrom
+  ensures srvFrom(t, p) <==> (srvOrHostLabelOK(t[p:q]) && srvFrom(t, q + 1))
 
 spec fn domFrom(t string, p int) bool =
   (p < 0 || p > len(t)) ? false :
   nextDot(t, p) < 0 ? tldOK(t[p:]) : (domLabelOK(t[p:nextDot(t, p)]) && domFrom(t, nextDot(t, p) + 1))
+  hidden
 spec fn srvFrom(t string, p int) bool =
   (p < 0 || p > len(t)) ? false :
   nextDot(t, p) < 0 ? tldOK(t[p:]) : (srvOrHostLabelOK(t[p:nextDot(t, p)]) && srvFrom(t, nextDot(t, p) + 1))
+  hidden
 
 // Inclusions of the statement: hostname-valid => SRV-valid => domain-valid,
 // by strong induction on the length of the text that is left.
 lemma hostImpliesSrv(t string, p int, n nat)
   requires 0 <= p && n == len(t) - p
   induction strong on n
+  reveal hostFrom, srvFrom
   apply hostLabelOK(t[p:nextDot(t, p)])
   ensures hostFrom(t, p) ==> srvFrom(t, p)
 
 lemma srvImpliesDom(t string, p int, n nat)
   requires 0 <= p && n == len(t) - p
   induction strong on n
+  reveal srvFrom, domFrom
   apply hostLabelOK(t[p:nextDot(t, p)])
   apply hostLabelOK(t[p + 1:nextDot(t, p)])
   ensures srvFrom(t, p) ==> domFrom(t, p)
@@ -338,6 +409,7 @@ func ValidateDomainName
   ensures safe_type: err != nil ==> typeis(err, "*AddrError") && as(err, "*AddrError") != nil
   ensures error_carries_input: err != nil ==> as(err, "*AddrError").Addr == old(name) && as(err, "*AddrError").Kind == AddrKindDomainName
   ensures grammar: err == nil <==> domainNameOK(old(name))
+  apply_exit domFromEnd(toASCII(name), off(label) - off(toASCII(name))) when !found
   loop 0
     invariant view: sameBase(label, name) && off(name) <= off(label) && off(label) + len(label) <= off(name) + len(name)
     invariant found ==> sameBase(tail, name) && off(tail) == off(label) + len(label) + 1 && off(tail) + len(tail) == off(name) + len(name)
@@ -348,12 +420,14 @@ func ValidateDomainName
     invariant domFrom(name, 0) <==> domFrom(name, off(label) - off(name))
     apply_head nextDotIs(name, off(label) - off(name), off(label) - off(name) + len(label))
     apply_head nextDotNone(name, off(label) - off(name))
+    apply_head domFromStep(name, off(label) - off(name), off(label) - off(name) + len(label))
     decreases found ? len(tail) + 1 : 0
 
 func ValidateHostname
   ensures safe_type: err != nil ==> typeis(err, "*AddrError") && as(err, "*AddrError") != nil
   ensures error_carries_input: err != nil ==> as(err, "*AddrError").Addr == old(name) && as(err, "*AddrError").Kind == AddrKindName
   ensures grammar: err == nil <==> hostnameOK(old(name))
+  apply_exit hostFromEnd(toASCII(name), off(label) - off(toASCII(name))) when !found
   loop 0
     invariant view: sameBase(label, name) && off(name) <= off(label) && off(label) + len(label) <= off(name) + len(name)
     invariant found ==> sameBase(tail, name) && off(tail) == off(label) + len(label) + 1 && off(tail) + len(tail) == off(name) + len(name)
@@ -364,12 +438,14 @@ func ValidateHostname
     invariant hostFrom(name, 0) <==> hostFrom(name, off(label) - off(name))
     apply_head nextDotIs(name, off(label) - off(name), off(label) - off(name) + len(label))
     apply_head nextDotNone(name, off(label) - off(name))
+    apply_head hostFromStep(name, off(label) - off(name), off(label) - off(name) + len(label))
     decreases found ? len(tail) + 1 : 0
 
 func ValidateSRVDomainName
   ensures safe_type: err != nil ==> typeis(err, "*AddrError") && as(err, "*AddrError") != nil
   ensures error_carries_input: err != nil ==> as(err, "*AddrError").Addr == old(name) && as(err, "*AddrError").Kind == AddrKindSRVName
   ensures grammar: err == nil <==> srvNameOK(old(name))
+  apply_exit srvFromEnd(toASCII(name), off(label) - off(toASCII(name))) when !found
   loop 0
     invariant view: sameBase(label, name) && off(name) <= off(label) && off(label) + len(label) <= off(name) + len(name)
     invariant found ==> sameBase(tail, name) && off(tail) == off(label) + len(label) + 1 && off(tail) + len(tail) == off(name) + len(name)
@@ -380,10 +456,12 @@ func ValidateSRVDomainName
     invariant srvFrom(name, 0) <==> srvFrom(name, off(label) - off(name))
     apply_head nextDotIs(name, off(label) - off(name), off(label) - off(name) + len(label))
     apply_head nextDotNone(name, off(label) - off(name))
+    apply_head srvFromStep(name, off(label) - off(name), off(label) - off(name) + len(label))
     decreases found ? len(tail) + 1 : 0
 
 func IsValidHostname
   ensures grammar: ok <==> hostnameOK(old(name))
+  apply_exit hostFromEnd(toASCII(name), off(label) - off(toASCII(name))) when !found
   loop 0
     invariant view: sameBase(label, name) && off(name) <= off(label) && off(label) + len(label) <= off(name) + len(name)
     invariant found ==> sameBase(tail, name) && off(tail) == off(label) + len(label) + 1 && off(tail) + len(tail) == off(name) + len(name)
